@@ -18,6 +18,11 @@ try:
         print(i, p.returncode, v)
 finally:
     subprocess.run(["git", "-C", "/repo", "checkout", "--", "."], check=True)
+    # generated Gallina files follow the source: bring them back to the clean tree
+    import glob
+    for t in sorted(glob.glob(os.path.join(root, "tools", "translate_*.py"))):
+        if not t.endswith("translate_mutation.py"):
+            subprocess.run(["python3", t], capture_output=True)
 mp = os.path.join(root, d, "meta.json")
 m = json.load(open(mp)) if os.path.exists(mp) else {}
 m.setdefault("checks_run_against_it", {}).update(res)
